@@ -105,6 +105,7 @@ type Run struct {
 	infraErr    []string
 	extViol     []string
 	replayPath  string
+	firstPass   bool // Main runs the body twice: first only the serial history phases, then everything
 }
 
 type replayer interface {
@@ -123,12 +124,12 @@ type W struct {
 	tick       int
 }
 
-func (w *W) Point()            { w.points++ }
-func (w *W) Points(n int64)    { w.points += n }
-func (w *W) Calls(n int64)     { w.calls += n }
-func (w *W) NonTrivial()       { w.nontrivial++ }
-func (w *W) Outcome(c string)  { w.outcomes[c]++ }
-func (w *W) Dry() bool         { return w.dry }
+func (w *W) Point()           { w.points++ }
+func (w *W) Points(n int64)   { w.points += n }
+func (w *W) Calls(n int64)    { w.calls += n }
+func (w *W) NonTrivial()      { w.nontrivial++ }
+func (w *W) Outcome(c string) { w.outcomes[c]++ }
+func (w *W) Dry() bool        { return w.dry }
 func (w *W) Sample(class string, v any) {
 	if w.dry {
 		return
@@ -167,7 +168,7 @@ func (w *W) flush() {
 func (r *Run) Sample(class string, v any) {
 	r.mu.Lock()
 	defer r.mu.Unlock()
-	if r.sampleSeen[class] >= 3 || len(r.samples) >= 60 {
+	if r.sampleSeen[class] >= 3 || len(r.samples) >= 60 || r.firstPass {
 		return
 	}
 	r.sampleSeen[class]++
@@ -175,7 +176,14 @@ func (r *Run) Sample(class string, v any) {
 }
 
 // Assume records an assumption / trusted-base statement for the evidence file.
-func (r *Run) Assume(s string) { r.Assumptions = append(r.Assumptions, s) }
+func (r *Run) Assume(s string) {
+	for _, a := range r.Assumptions {
+		if a == s {
+			return
+		}
+	}
+	r.Assumptions = append(r.Assumptions, s)
+}
 
 // ExternalViolation records a violation found by an auxiliary tool run (e.g. the race detector), with its own replay artefact.
 func (r *Run) ExternalViolation(replayPath, text string) {
@@ -196,6 +204,15 @@ func (r *Run) Quick() bool { return r.Tier == "quick" }
 
 // Phase runs fn as a named sub-space; globals may be changed only between phases.
 func (r *Run) Phase(name string, bound string, fn func()) {
+	// First pass (see Main): only the serial history phases run, on a process in which the library has not been called
+	// yet, so that state the library keeps from its first calls (a cache that stops filling after N entries, a lazily
+	// built table, a once-only initialisation) cannot be used up by the mass phases before the histories are explored.
+	if r.firstPass {
+		if !strings.HasPrefix(name, "serial") {
+			return
+		}
+		name += " [first pass: before any other phase, fresh process]"
+	}
 	if r.expired.Load() {
 		r.phases = append(r.phases, PhaseInfo{Name: name, Exhaustive: false, Bound: "skipped: deadline reached before start"})
 		return
@@ -406,6 +423,9 @@ func Main(id string, rule string, body func(r *Run)) {
 		body(r)
 		os.Exit(r.doReplay(*replay))
 	}
+	r.firstPass = true
+	body(r)
+	r.firstPass = false
 	body(r)
 	os.Exit(r.finish())
 }
